@@ -20,6 +20,7 @@ args = [a for a in sys.argv[1:] if not a.startswith("--")]
 wt, k, sid, prop = args[0], args[1], args[2], args[3]
 others = args[4:]
 skip_tests = "--skip-tests" in sys.argv
+via_wt = "--via-worktree" in sys.argv  # run the checks against the worktree (VERIF_REPO) instead of applying the patch to /repo (needed while a vp run uses /repo)
 out = os.path.join(VERIF, "seeded", sid)
 os.makedirs(out, exist_ok=True)
 patch = os.path.join(wt, "OUT", f"change{k}.diff")
@@ -59,25 +60,29 @@ meta["confirmed"] = bool(confirmed)
 
 # run the checks against /repo with the change applied
 results = {}
-rc, o = sh("git status --short", cwd="/repo")
-assert o.strip() == "", "/repo is not clean: " + o
-rc, o = sh(f"git apply {os.path.join(out, 'patch.diff')}", cwd="/repo")
+target = wt if via_wt else "/repo"
+rc, o = sh("git status --short -uno", cwd=target)
+assert o.strip() == "", target + " is not clean: " + o
+rc, o = sh(f"git apply {os.path.join(out, 'patch.diff')}", cwd=target)
 assert rc == 0, o
 scratch = tempfile.mkdtemp(prefix="verif-seeded-")
 try:
     for p in [prop] + others:
         cenv = dict(os.environ, VERIF_EVIDENCE_DIR=os.path.join(scratch, "evidence"), VERIF_REPLAY_DIR=os.path.join(out, "replays_" + p),
                     VERIF_STOP_ON_FIRST="1")
+        if via_wt:
+            cenv["VERIF_REPO"] = wt
         t0 = time.time()
         rcc, oc = sh(f"bin/simcheck {p} --tier quick", cwd=VERIF, env=cenv, timeout=3000)
         vio = [ln for ln in oc.splitlines() if ln.startswith("[simcheck] violation")]
         results[p] = {"exit": rcc, "wall_s": round(time.time() - t0), "first_violation": (vio[0][21:700] if vio else None)}
-        meta["ran"].append(f"git -C /repo apply patch.diff; bin/simcheck {p} --tier quick -> exit {rcc}")
+        meta["ran"].append((f"git -C <worktree> apply patch.diff; VERIF_REPO=<worktree> bin/simcheck {p} --tier quick -> exit {rcc}" if via_wt else
+                            f"git -C /repo apply patch.diff; bin/simcheck {p} --tier quick -> exit {rcc}"))
 finally:
-    sh("git checkout -- .", cwd="/repo")
+    sh("git checkout -- .", cwd=target)
     shutil.rmtree(scratch, ignore_errors=True)
-rc, o = sh("git status --short", cwd="/repo")
-assert o.strip() == "", "/repo not restored: " + o
+rc, o = sh("git status --short -uno", cwd=target)
+assert o.strip() == "", target + " not restored: " + o
 meta["checks"] = results
 meta["caught_by"] = [p for p, r in results.items() if r["exit"] == 1]
 with open(os.path.join(out, "meta.json"), "w") as f:
